@@ -1406,8 +1406,153 @@ fn siqsfactors(rng: &mut Rng, iters: u64) {
     }
 }
 
+// ---- C09: arith_gcd against plain Euclid and the exact Bezout identity in 4096-bit arithmetic. Mirror of the contracts of
+// big_gcd / gcd_internal / inv_mod, and the probe of assumption A7 (inside the size band the cofactor arithmetic does not
+// wrap: no overflow panic in the dev profile, exact identity u a + v b = gcd).
+fn euclid<const N: usize>(a: bnum::BUint<N>, b: bnum::BUint<N>) -> bnum::BUint<N> {
+    let (mut x, mut y) = (a, b);
+    while !y.is_zero() {
+        let r = x % y;
+        x = y;
+        y = r;
+    }
+    x
+}
+
+fn gcdbez_pair<const N: usize>(a: bnum::BUint<N>, b: bnum::BUint<N>) -> Result<(), String> {
+    use bnum::cast::CastFrom;
+    use yamaquasi::arith_gcd::{big_gcd, gcd_internal, inv_mod};
+    type I4096 = bnum::BInt<64>;
+    let g = euclid(a, b);
+    let r = catch_unwind(AssertUnwindSafe(|| big_gcd(&a, &b)));
+    match r {
+        Err(_) => return Err(format!("big_gcd::<{N}>({a}, {b}): panic")),
+        Ok(d) => if d != g { return Err(format!("big_gcd::<{N}>({a}, {b}) = {d}, expected {g}")); }
+    }
+    let r = catch_unwind(AssertUnwindSafe(|| gcd_internal::<N, true>(&a, &b)));
+    match r {
+        Err(_) => return Err(format!("gcd_internal::<{N}, true>({a}, {b}): panic")),
+        Ok((d, u, v)) => {
+            if d != g { return Err(format!("gcd_internal::<{N}, true>({a}, {b}): gcd {d}, expected {g}")); }
+            let lhs = I4096::cast_from(u) * I4096::cast_from(a) + I4096::cast_from(v) * I4096::cast_from(b);
+            if lhs != I4096::cast_from(d) { return Err(format!("gcd_internal::<{N}, true>({a}, {b}) = ({d}, {u}, {v}): u a + v b = {lhs}, not the gcd")); }
+        }
+    }
+    if !b.is_zero() {
+        let r = catch_unwind(AssertUnwindSafe(|| inv_mod(&a, &b)));
+        match r {
+            Err(_) => return Err(format!("inv_mod::<{N}>({a}, {b}): panic")),
+            Ok(Ok(x)) => {
+                if g != bnum::BUint::<N>::ONE { return Err(format!("inv_mod::<{N}>({a}, {b}) = Ok({x}) although the gcd is {g}")); }
+                let w = bnum::BUint::<64>::cast_from(x) * bnum::BUint::<64>::cast_from(a) % bnum::BUint::<64>::cast_from(b);
+                let one = bnum::BUint::<64>::ONE % bnum::BUint::<64>::cast_from(b);
+                if w != one || (x >= b && b > bnum::BUint::<N>::ONE) { return Err(format!("inv_mod::<{N}>({a}, {b}) = Ok({x}): n x mod p = {w}")); }
+            }
+            Ok(Err(d)) => {
+                if d != g { return Err(format!("inv_mod::<{N}>({a}, {b}) = Err({d}), the gcd is {g}")); }
+                if g == bnum::BUint::<N>::ONE && !a.is_zero() { return Err(format!("inv_mod::<{N}>({a}, {b}) = Err(1) although the operands are coprime")); }
+            }
+        }
+    }
+    Ok(())
+}
+
+/// a structured pair of at most `limit` bits: built from a continued fraction (chosen partial quotients), random words of
+/// chosen widths, powers, multiples, equal operands, zero
+fn gcdbez_gen<const N: usize>(rng: &mut Rng, limit: u32) -> (bnum::BUint<N>, bnum::BUint<N>) {
+    type U<const M: usize> = bnum::BUint<M>;
+    let rand_bits = |rng: &mut Rng, bits: u32| -> U<N> {
+        let mut d = [0u64; N];
+        for w in d.iter_mut() { *w = rng.word(); }
+        let x = U::<N>::from_digits(d);
+        if bits == 0 { U::<N>::ZERO } else { (x >> (64 * N as u32 - bits)) | (U::<N>::ONE << (bits - 1)) }
+    };
+    let width = |rng: &mut Rng| -> u32 {
+        match rng.next() % 6 {
+            0 => limit - (rng.next() % 41) as u32,          // within 40 bits of the band limit
+            1 => 1 + (rng.next() % 64) as u32,              // at most one word
+            2 => 64 * (1 + (rng.next() % (N as u64 - 1)) as u32) + (rng.next() % 3) as u32 - 1, // word boundaries
+            _ => 1 + (rng.next() % limit as u64) as u32,
+        }.min(limit).max(1)
+    };
+    match rng.next() % 10 {
+        0 => {
+            // continued fraction with chosen quotients: 1s (Fibonacci-like), huge ones, near 2^32 / 2^36
+            let gb = 1 + (rng.next() % 70) as u32; let g = if rng.next() % 2 == 0 { U::<N>::ONE } else { rand_bits(rng, gb) };
+            let (mut x0, mut x1) = (U::<N>::ZERO, g);
+            loop {
+                let q: U<N> = match rng.next() % 8 {
+                    0 => U::<N>::ONE << (rng.next() % 100) as u32,
+                    1 => U::<N>::from(1u64 << 32) + U::<N>::from(rng.next() % 5) - U::<N>::from(2u64),
+                    2 => U::<N>::from(1u64 << 36) + U::<N>::from(rng.next() % 5) - U::<N>::from(2u64),
+                    3 => U::<N>::from(rng.next()),
+                    4 => U::<N>::from(2u64),
+                    _ => U::<N>::ONE,
+                };
+                if q.bits() + x1.bits() + 1 > limit { break; }
+                let x2 = q * x1 + x0;
+                x0 = x1;
+                x1 = x2;
+                if rng.next() % 200 == 0 { break; }
+            }
+            if rng.next() % 2 == 0 { (x1, x0) } else { (x0, x1) }
+        }
+        1 => { let w = width(rng); let a = rand_bits(rng, w); (a, a) }
+        2 => { let w = width(rng); let a = rand_bits(rng, w); if rng.next() % 2 == 0 { (a, U::<N>::ZERO) } else { (U::<N>::ZERO, a) } }
+        3 => {
+            // a multiple of b
+            let wb = width(rng); let b = rand_bits(rng, wb);
+            let kb = 1 + (rng.next() % (limit - wb + 1).max(1) as u64) as u32; let k = rand_bits(rng, kb);
+            if k.bits() + b.bits() > limit { (b, b) } else { (k * b, b) }
+        }
+        4 => {
+            // powers of small numbers
+            let base = [3u64, 5, 7, 11, 13][(rng.next() % 5) as usize];
+            let mut a = U::<N>::ONE; while a.bits() + 4 < limit - (rng.next() % 60) as u32 { a = a * U::<N>::from(base); }
+            let base2 = [2u64, 3, 5, 7, 10][(rng.next() % 5) as usize];
+            let mut b = U::<N>::ONE; while b.bits() + 4 < limit - (rng.next() % 600).min(limit as u64 - 8) as u32 { b = b * U::<N>::from(base2); }
+            (a, b)
+        }
+        5 => {
+            // common factor
+            let gb = 1 + (rng.next() % 200).min(limit as u64 / 3) as u32; let g = rand_bits(rng, gb);
+            let wa = 1 + (rng.next() % (limit - g.bits()) as u64) as u32; let wb = 1 + (rng.next() % (limit - g.bits()) as u64) as u32;
+            (g * rand_bits(rng, wa), g * rand_bits(rng, wb))
+        }
+        _ => { let (w1, w2) = (width(rng), width(rng)); (rand_bits(rng, w1), rand_bits(rng, w2)) }
+    }
+}
+
+fn gcdbez(rng: &mut Rng, iters: u64) {
+    use std::str::FromStr;
+    type U1024 = bnum::BUint<16>;
+    type U512 = bnum::BUint<8>;
+    // fixed inputs: reported shapes (wide powers, huge quotient mid-way)
+    let p7 = { let mut a = U1024::ONE; for _ in 0..356 { a = a * U1024::from(7u64); } a };
+    let p5 = { let mut a = U1024::ONE; for _ in 0..430 { a = a * U1024::from(5u64); } a };
+    let c = { let mut a = U1024::ONE; for _ in 0..100 { a = a * U1024::from(3u64); } a };
+    let r = { let mut a = U1024::ONE; for _ in 0..60 { a = a * U1024::from(5u64); } a };
+    let a = ((U1024::ONE << 40) + U1024::ONE) * c + r;
+    let a0 = U1024::from(3u64) * a + c;
+    let n26 = U1024::from_str("26984400680641981219").unwrap();
+    for (x, y) in [(p7, p5), (p5, p7), (a0, a), (a, a0), (U1024::from(30894741361u64), n26), (U1024::ONE, U1024::ONE), (U1024::ZERO, U1024::ZERO)] {
+        if let Err(e) = gcdbez_pair::<16>(x, y) { fail("gcdbez", e); }
+    }
+    for it in 0..iters {
+        if it % 2 == 0 {
+            let (a, b) = gcdbez_gen::<16>(rng, 1012);
+            if let Err(e) = gcdbez_pair::<16>(a, b) { fail("gcdbez", e); }
+        } else {
+            let (a, b) = gcdbez_gen::<8>(rng, 500);
+            if let Err(e) = gcdbez_pair::<8>(a, b) { fail("gcdbez", e); }
+        }
+        let _ = U512::ONE;
+    }
+}
+
 pub fn run(case: &str, rng: &mut Rng, iters: u64) -> bool {
     match case {
+        "gcdbez" => gcdbez(rng, iters),
         "pp1" => pp1_case(),
         "siqsfactors" => siqsfactors(rng, iters),
         "ecmstage2" => ecmstage2(rng, iters),
